@@ -75,7 +75,8 @@ fn dot_consistent(h: &B) -> Result<(), String> {
     let text = String::from_utf8(buf).map_err(|_| "DOT output is not UTF-8".to_string())?;
     let g = dot::parse(&text)?;
     let labels = g.well_formed()?;
-    let tests = labels.iter().filter(|(id, _)| *id != "n_true" && *id != "n_false").count();
+    // test nodes = declared nodes with outgoing edges (identifiers are not interpreted)
+    let tests = labels.keys().filter(|id| !g.out_edges(id).is_empty()).count();
     let sh = plain::invariants(h);
     if tests != sh.distinct_tests {
         return Err(format!(
@@ -152,7 +153,8 @@ pub fn check_history_keep(opsv: &[Op], keep: usize, mut st: Option<&mut Stats>) 
                         return Err(v(format!("{}: ({},{}) here but ({},{}) in a fresh environment", what, a, b, fa, fb)));
                     }
                     match orc {
-                        Oracle::Pair(x, y) if (x, y) == (a, b) => {}
+                        // only the answer (true, true) is specified: exactly when the variable is forced true
+                        Oracle::Pair(x, y) if ((x, y) == (true, true)) == ((a, b) == (true, true)) => {}
                         Oracle::Pair(x, y) => {
                             return Err(v(format!("{}: ({},{}) but the table model says ({},{})", what, a, b, x, y)))
                         }
